@@ -144,7 +144,9 @@ public:
         for (std::size_t i = 0; i != size; ++i)
         {
             RandomNumberEngine rne;
-            in >> rne;
+            // the extraction operators of random number engines are not required to skip the
+            // newline written before each generator
+            in >> std::ws >> rne;
             generators_.push_back(rne);
         }
     }
